@@ -307,9 +307,14 @@ pub fn gen_tiebreak(r: &mut Rng, svcs: &[Svc]) -> Option<String> {
         _ => {}
     }
     let recs = svc_records(&o, 120, 4500, true);
-    d.questions.push((s.fullname(), 255));
+    // the competing host may spell the name in another letter case (question and records alike)
+    let spell = if r.chance(1, 3) { 1 + r.below(3) } else { 0 };
+    d.questions.push((flip_case(&s.fullname(), spell), 255));
     // authority section: TXT and SRV in the order a compliant prober sorts them (by type)
     let mut auth: Vec<RecDesc> = recs.into_iter().filter(|x| x.ty == 33 || x.ty == 16).collect();
+    for rec in auth.iter_mut() {
+        rec.name = flip_case(&rec.name, spell);
+    }
     auth.sort_by_key(|x| x.ty);
     if r.chance(1, 6) {
         auth.truncate(1);
@@ -333,7 +338,14 @@ pub fn gen_conflict(r: &mut Rng, svcs: &[Svc]) -> Option<String> {
         }
         _ => {} // same data: no conflict
     }
-    let recs = svc_records(&o, 120, 4500, true);
+    let mut recs = svc_records(&o, 120, 4500, true);
+    // the other host may spell the names in another letter case
+    if r.chance(1, 3) {
+        let spell = 1 + r.below(3);
+        for rec in recs.iter_mut() {
+            rec.name = flip_case(&rec.name, spell);
+        }
+    }
     // Like a real announcement the response carries the PTR: with a PTR that nobody browses
     // the daemon does not cache the records (`is_for_us` is false), so that only
     // `conflict_handler` reacts - the part of `handle_response` the responder model covers.
